@@ -2,6 +2,7 @@ package main
 
 import (
 	"fmt"
+	"math/big"
 	"os"
 	"runtime"
 	"strings"
@@ -94,8 +95,20 @@ func (s *sched) runTask(t *taskRun) {
 		t.world.step = i
 		t.world.exec(&t.steps[i])
 	}
-	t.world.trace = append(t.world.trace, errsDigest(t.errs))
+	t.world.trace = append(t.world.trace, errsDigest(t.errs), heldDigest(t.world))
 	errSink = nil
+}
+
+// heldDigest: values the library handed out earlier in the task (generated exponents) are read
+// again at its end; they must still be what they were, whatever other tasks did meanwhile.
+func heldDigest(w *World) string {
+	held, _ := w.ext["held_exponents"].([]*big.Int)
+	h := uint64(0)
+	for _, x := range held {
+		h = fnv1a(h, x.Bytes())
+		h = fnv1a(h, []byte{0})
+	}
+	return fmt.Sprintf("held_values_reread_at_task_end:n=%d:%016x", len(held), h)
 }
 
 func (s *sched) give(t *taskRun, quantum int) {
@@ -224,7 +237,7 @@ func runParallel(tasks []Task, rounds [][]int, procs int) [][]string {
 	simRand.byGoid = nil
 	var traces [][]string
 	for _, pt := range pts {
-		pt.world.trace = append(pt.world.trace, errsDigest(*pt.rnd.errs))
+		pt.world.trace = append(pt.world.trace, errsDigest(*pt.rnd.errs), heldDigest(pt.world))
 		traces = append(traces, pt.world.trace)
 	}
 	return traces
@@ -448,7 +461,25 @@ func genTaskSteps(r *Rng, nops int, sharedMsg *MsgSpec, sharedProt *Step, allowS
 			g := 2
 			steps = append(steps, Step{Op: "dh_shared", Group: g, X: r.Bytes(Pick(r, 2, 16, 32)), Y: r.Bytes(Pick(r, 1, 64, 128))})
 		case 10:
-			steps = append(steps, Step{Op: "dh_gen", Rand: &RandScript{Seed: r.U64(), Chunk: Pick(r, 0, 64)}})
+			st := Step{Op: "dh_gen", Rand: &RandScript{Seed: r.U64(), Chunk: Pick(r, 0, 64)}}
+			if r.Chance(1, 3) { // the first draws fall below the floor: the redraw branch runs
+				st.Rand.PatReads, st.Rand.PatByte = r.Range(1, 2), 0
+				if st.Rand.Chunk > 0 {
+					st.Rand.PatReads *= 4
+				}
+			}
+			steps = append(steps, st)
+			if r.Chance(1, 3) { // a handshake as responder whose random source fails (or not), either group
+				s2 := suiteByIndex(r.Intn(54))
+				ns := Step{Op: "dh_newsa", Suite: &s2, X: r.Bytes(32), Nonce: r.Bytes(16), Nonce2: r.Bytes(16), SpiI: r.U64(), SpiR: r.U64(), Rand: &RandScript{Seed: r.U64()}}
+				if s2.DH == 14 || r.Bool() {
+					ns.Rand.FailAt, ns.Rand.FailMode = 1, Pick(r, "err", "eof")
+				}
+				if s2.DH == 14 && r.Chance(1, 4) {
+					ns.Rand.FailAt = 0
+				}
+				steps = append(steps, ns)
+			}
 		case 11, 12:
 			steps = append(steps, Step{Op: "plain_codec", Msg: genMsg(r, &cfg)})
 		case 13:
